@@ -16,7 +16,8 @@ PROP = "C16"
 LEVEL = "exploration"
 RULE = (
     "(a) all 3^8 = 6561 statistics vectors over {1.0, 1.25, 50.0} (used as variance; rolled/reversed copies as skewness/kurtosis) x method "
-    "{mad, iqrm} x threshold {1,3,5}: stats_mask == independent float64 re-implementation of double-MAD / IQRM thresholding; for a sub-grid "
+    "{mad, iqrm} x threshold {1,3,5}: stats_mask == independent float64 re-implementation of double-MAD / IQRM thresholding (also on bands of 64, 130 and 832 channels "
+    "with a smooth bandpass and outlier blocks at 6 positions x 4 widths x 3 amplitudes); for a sub-grid "
     "of vectors x 6 frequency-range lists x 4 custom functions x all 6 application orders, and all 216 three-step histories over 6 steps "
     "(repeated kinds included): chan_mask == union of everything applied so far and grows monotonically; (b) clean_rfi for every gulp 1..N+1, depths {8,32,4,2,1}, default and explicit mask values: masked channels constant "
     "at the mask value in every sample, all other samples bit-identical; (c) to_file/from_file. Non-trivial = a mask with >= 1 and < all channels"
@@ -26,7 +27,7 @@ ASSUMPTIONS = [
     "channel centres are the library's float32 labels (Header.chan_freqs)",
     "sky position/angles are not part of the mask file format and are not compared",
 ]
-REQUIRED_OUTCOMES = ["stats_mask/ok", "union/ok", "clean/ok", "clean/default_value_ok", "file/ok"]
+REQUIRED_OUTCOMES = ["stats_mask/ok", "stats_mask/wide_ok", "union/ok", "clean/ok", "clean/default_value_ok", "file/ok"]
 
 VALS = [1.0, 1.25, 50.0]
 NORM = 0.6744897501960817
@@ -48,6 +49,9 @@ def shards(tier: str, seed: int) -> list:
                     # all 3^10 ten-channel vectors as well (the IQRM radius of 5 then spans exactly half the band)
                     out.append({"kind": "stats", "prefix": [first, second, third], "len": 10})
     out.append({"kind": "union"})
+    # wide bands (64 .. 832 channels): structured bandpasses with blocks of outliers; a rule that depends on the number of channels would show here
+    for L in ((64, 130, 832) if tier == "quick" else (59, 60, 64, 100, 130, 256, 832, 4096)):
+        out.append({"kind": "wide", "len": L})
     b = bounds(tier)
     for nbits in (8, 32, 4, 2, 1):
         for method in ("mad", "iqrm"):
@@ -117,7 +121,49 @@ def run_shard(shard: dict, ctx, res, only=None) -> None:
     import warnings
 
     warnings.filterwarnings("ignore")
-    {"stats": _stats, "union": _union, "clean": _clean, "file": _file}[shard["kind"]](shard, ctx, res, only)
+    {"stats": _stats, "union": _union, "clean": _clean, "file": _file, "wide": _wide}[shard["kind"]](shard, ctx, res, only)
+
+
+def _wide(shard, ctx, res, only):
+    L = int(shard["len"])
+    hdr = _hdr(C=L)
+    i = np.arange(L)
+    with np.errstate(over="ignore"):
+        noise = (((i.astype(np.uint64) + np.uint64(ctx.seed + 1)) * np.uint64(0x9E3779B97F4A7C15)) >> np.uint64(40)).astype(np.float64) / float(1 << 24) - 0.5
+    base = 10.0 + 2.0 * np.sin(2 * np.pi * i / L) + 0.2 * noise
+    for p in sorted({0, 5, L // 3, L // 2, L - 13, L - 1}):
+        for w in (1, 3, 6, 12):
+            for amp in (1.5, 10.0, -4.0):
+                v = base.copy()
+                v[p : p + w] += amp
+                v = v.astype(np.float32)
+                sk, ku = np.roll(v, 3), v[::-1].copy()
+                for method in ("mad", "iqrm"):
+                    for thr in (1, 3, 5):
+                        if only is not None and [p, w, amp, method, thr] != only:
+                            continue
+                        case = {"shard": shard, "inner": [p, w, amp, method, thr]}
+                        refs = [_ref_mask(a, method, thr) for a in (v, sk, ku)]
+                        if any(r[1] for r in refs):
+                            res.skip("z_within_1e-4_of_threshold")
+                            continue
+                        want = refs[0][0] | refs[1][0] | refs[2][0]
+                        res.evaluations += 1
+                        try:
+                            m = _mk(hdr, v, sk, ku, thr)
+                            m.apply_method(method)
+                        except Exception as e:  # noqa: BLE001
+                            res.violation({"site": "RFIMask.apply_method", "symptom": f"raised {type(e).__name__}", "method": method}, case, repr(e))
+                            continue
+                        got = np.asarray(m.stats_mask, dtype=bool)
+                        if got.shape != want.shape or not np.array_equal(got, want):
+                            d = np.flatnonzero(got != want) if got.shape == want.shape else []
+                            res.violation({"site": "RFIMask.apply_method", "symptom": "statistics mask differs from the thresholding rule", "method": method, "wide": True}, case,
+                                          f"{L} channels, outlier block at {p} width {w} amplitude {amp}, thr={thr}: {len(d)} channels differ, first {list(d[:8])}")
+                            continue
+                        res.outcome("stats_mask/wide_ok")
+                        if 0 < want.sum() < len(want):
+                            res.nontrivial += 1
 
 
 def _mk(hdr, var, skew, kurt, thr):
